@@ -1,0 +1,11 @@
+//go:build !verif
+
+package io
+
+const (
+	VerifOpRead   = 0
+	VerifOpUnread = 1
+	VerifOpReset  = 2
+)
+
+func (c *StringScanner) verifHook(op int) {}
